@@ -310,6 +310,12 @@ def c19(ctx):
                 return
         else:
             mk = rec.info["makespan"]
+            # the makespan the reward is about is the one of the schedule: the latest completion recorded
+            ends = [tt(o.end_time) for j in rec.env_state.state.jobs for o in j.operations
+                    if o.operation_state_state == OS.DONE]
+            if ends and mk is not None and max(ends) != mk:
+                yield F("terminal-reward-not-about-the-schedule", f"reported makespan {mk}, latest completion {max(ends)}", si)
+                return
             tmax, lb = env.max_allowed_time, env.lower_bound
             main = (tmax - mk) / (tmax - lb)
             if not (sparse * main + shaping_lo - 1e-9 <= r <= sparse * main + 1e-9):
